@@ -300,7 +300,52 @@ def _bidx(shape, nd):
     return f
 
 
+def _same_mask(m1, m2):
+    if m1.mask is m2.mask:
+        return True
+    if not dim_eq_syntactic(m1.n, m2.n):
+        return False
+    t = sv.fresh_int("mk")
+    a, b = norm(m1.mask(t)), norm(m2.mask(t))
+    if is_conc(a) or is_conc(b):
+        return is_conc(a) and is_conc(b) and bool(a) == bool(b)
+    return a.t.eq(b.t)
+
+
+def _ew_masked(f, operands, dtype=None):
+    """elementwise operation on boolean-mask selections of ONE mask (numpy aligns the selected rows in order) and
+    scalars; trailing dimensions broadcast as usual.  The result is again a selection by that mask."""
+    ms = [o for o in operands if isinstance(o, Masked)]
+    m0 = ms[0]
+    for m in ms[1:]:
+        if not _same_mask(m0, m):
+            raise EngineError("elementwise operation on selections by different masks")
+    parts = []
+    for o in operands:
+        if isinstance(o, Masked):
+            parts.append((tuple(o.rest), o.src, o.dtype, True))
+        else:
+            shp, rd, dt = as_operand(o)
+            if shp != ():
+                raise EngineError("elementwise operation of a masked selection with an array")
+            parts.append(((), rd, dt, False))
+    rest = broadcast_shapes([p[0] for p in parts])
+    nd = len(rest)
+    maps = [_bidx(p[0], nd) for p in parts]
+    dt = dtype or promote(*[p[2] for p in parts])
+
+    def src(idx):
+        t, tail = idx[0], tuple(idx[1:])
+        vals = []
+        for (shp, rd, _, masked), mp in zip(parts, maps):
+            vals.append(rd((t,) + tuple(mp(tail))) if masked else rd(()))
+        return f(*vals)
+    return Masked(_memo(src), m0.n, m0.mask, tuple(rest), dt)
+
+
 def ew(f, *operands, dtype=None):
+    if any(isinstance(o, Masked) for o in operands):
+        return _ew_masked(f, operands, dtype)
     ops = [as_operand(o) for o in operands]
     if all(o[0] == () for o in ops) and not any(isinstance(o, Arr) for o in operands):
         return f(*[o[1](()) for o in ops])
@@ -325,13 +370,14 @@ def binop(op, a, b):
     if op == "-":
         return ew(sv.sub, a, b)
     if op == "*":
-        da, db = as_operand(a)[2], as_operand(b)[2]
+        da = a.dtype if isinstance(a, Masked) else as_operand(a)[2]
+        db = b.dtype if isinstance(b, Masked) else as_operand(b)[2]
         if da == "bool" and db == "bool":
             return ew(sv.and_, a, b, dtype="bool")
         return ew(sv.mul, a, b)
     if op == "/":
         r = ew(_truediv, a, b)
-        if isinstance(r, Arr) and r.dtype in ("int", "bool"):
+        if isinstance(r, (Arr, Masked)) and r.dtype in ("int", "bool"):
             r.dtype = "float"
         return r
     if op == "//":
@@ -476,10 +522,50 @@ def _expand_key(key, nd):
     return out
 
 
+def _masked_getitem(a, key):
+    """m[:, None, ...]: the selected axis kept whole, new axes / full slices on the trailing dimensions"""
+    if not isinstance(key, tuple):
+        key = (key,)
+    if not key or not (isinstance(key[0], slice) and key[0] == slice(None)):
+        raise EngineError("indexing a masked selection")
+    rest, plan, ax = [], [], 0
+    for k in key[1:]:
+        if k is None:
+            rest.append(1)
+            plan.append(None)
+        elif isinstance(k, slice) and k == slice(None) and ax < len(a.rest):
+            rest.append(a.rest[ax])
+            plan.append(ax)
+            ax += 1
+        else:
+            raise EngineError("indexing a masked selection")
+    while ax < len(a.rest):
+        rest.append(a.rest[ax])
+        plan.append(ax)
+        ax += 1
+    src = a.src
+
+    def src2(idx):
+        tail = idx[1:]
+        old = [None] * len(a.rest)
+        for pos, ax_ in enumerate(plan):
+            if ax_ is not None:
+                old[ax_] = tail[pos]
+        return src((idx[0],) + tuple(old))
+    return Masked(src2, a.n, a.mask, tuple(rest), a.dtype)
+
+
 def getitem(a, key):
     if isinstance(a, Masked):
-        raise EngineError("indexing a masked selection")
+        return _masked_getitem(a, key)
     shape = a.shape
+    if isinstance(key, tuple) and len(key) >= 2 and isinstance(key[-1], Arr) and key[-1].dtype == "bool" \
+            and all(sv.is_scalar(norm(k)) for k in key[:-1]):
+        # a[n, mask]: integer indices first, then a boolean mask over the next axis
+        sub = getitem(a, tuple(key[:-1]))
+        if not isinstance(sub, Arr):
+            raise EngineError("boolean mask on a scalar")
+        return _mask_select(sub, key[-1])
     # boolean mask (whole-array or leading-axis)
     if isinstance(key, Arr) and key.dtype == "bool":
         return _mask_select(a, key)
@@ -791,10 +877,15 @@ def _axis_len_sum(n, f):
 
 def reduce_sum(a, axis=None):
     if isinstance(a, Masked):
-        if a.rest != () or axis not in (None, 0):
-            raise EngineError("masked sum with trailing dims")
         src, mask = a.src, a.mask
-        return Sum(0, a.n, lambda t: ite(mask(t), lambda: src((t,)), 0))
+        if a.rest == ():
+            if axis not in (None, 0):
+                raise EngineError("masked sum axis")
+            return Sum(0, a.n, lambda t: ite(mask(t), lambda: src((t,)), 0))
+        if axis is None or int(axis) != 0:
+            raise EngineError("masked sum with trailing dims over another axis")
+        n = a.n
+        return new_arr(tuple(a.rest), lambda idx: Sum(0, n, lambda t: ite(mask(t), lambda: src((t,) + tuple(idx)), 0)), a.dtype)
     if not isinstance(a, Arr):
         a = from_nested(a)
     r = a.reader()
